@@ -148,7 +148,7 @@ var props = map[string]propSpec{
 		Explanation: "trimmed protocol list on 3 arbitrary ALPN strings; end to end through the node's own ClientConfigs and the listener's Accept: reported list = offered list minus the preference entry (any position), returned as a copy; client state equal to what the node supplied and delivered only for a genuine signature by the key of the record that authenticated the request (also when the node is looked up by node ID and has a newer record)"},
 	"C17": {Harnesses: []harnessSpec{
 		{Pkg: "net", Fn: "VerifC17Routing", Validate: 16, MustReach: []string{"delivered-to-special", "delivered-to-auth", "delivered-to-unauth", "closed-no-listener", "end"}, Panics: true, ShardBits: 4},
-		{Pkg: "net", Fn: "VerifC17LateRegistration", Validate: 4, MustReach: []string{"delivered-to-the-late-listener", "second-connection-has-no-listener", "end"}, Panics: true},
+		{Pkg: "net", Fn: "VerifC17LateRegistration", Validate: 4, MustReach: []string{"delivered-to-the-late-listener", "second-connection-has-no-listener", "end"}, Panics: true, ShardBits: 3},
 	}, Assumptions: with("one schedule per path: goroutines are sequentialised coroutines with rendezvous channels (no claim about interleavings, see C18)", "the application's base TLS configuration offers no library-prefixed protocol names", "a mis-routed connection shows up as a deadlock of the harness (it accepts only from the designated sub-listener)"),
 		Explanation: "real SplitListener.Start/GetListener and MultiplexingListener over the real InterceptingListener.Accept: every subset of {specific, non-specific, unauthenticated} sub-listeners, native-connection setting, an authenticated node or a plain TLS client offering an arbitrary extra protocol name (incl. the reserved ones), then base-listener closure; a sub-listener registered between two connections receives the second"},
 	"C19": {Harnesses: []harnessSpec{
